@@ -354,6 +354,10 @@ func runC09(w *W) {
 				env.Cap = pickInt(t, "env.cap", 0, 1, len(js), len(want), len(want)+1, 4096)
 			}
 			in := w.AllocData(js, env.InPlace)
+			doc, tailOK := in.B, func() bool { return true }
+			if env.InPlace == simrt.PlaceHeap && t.Chance(1, 2, "env.tail") {
+				doc, tailOK = withTail(js) // the document is a prefix of a larger buffer of the caller's
+			}
 			w.NextOp(fmt.Sprintf("j2p doc %d env %s", d, env))
 			facts := map[string]string{"env": env.String(), "negative": fmt.Sprint(negative != ""), "unknown_members": fmt.Sprint(st.usedUnk > 0), "null_members": fmt.Sprint(st.usedNull > 0)}
 			w.opFacts = facts
@@ -370,14 +374,17 @@ func runC09(w *W) {
 					facts["buffer_holds_previous_result"] = "true"
 					w.Count("dointo_buffer_holds_previous_result")
 				}
-				err = cv.DoInto(ctx, desc, in.B, &reuse)
+				err = cv.DoInto(ctx, desc, doc, &reuse)
 				out = reuse
 			} else {
-				out, err = cv.Do(ctx, desc, in.B)
+				out, err = cv.Do(ctx, desc, doc)
 			}
 			w.World.StepLimit = saved
 			w.opFacts = nil
-			if !bytes.Equal(in.B, js) {
+			if !tailOK() {
+				w.Failf("input-modified", facts, "the conversion wrote into the caller's buffer behind the end of the JSON document (env %s)", env)
+			}
+			if !bytes.Equal(in.B, js) || !bytes.Equal(doc, js) {
 				w.Failf("input-modified", facts, "the conversion modified the caller's JSON document (env %s)", env)
 			}
 			t.NoteBytes(out)
